@@ -130,8 +130,11 @@ fn resolve_foreign_keys(
             .or_else(|| {
                 let base_path = plural_base_path(&value_path)?;
                 values.get_value_at(&locale, &base_path)
-            })
-            .unwrap_at("resolve_foreign_keys_1");
+            });
+        // the value that held the foreign key was replaced by a later duplicate of its key: nothing left to resolve.
+        let Some(value) = value else {
+            continue;
+        };
         value.resolve_foreign_key(values, &locale, default_locale, extensions, &value_path)?;
     }
     Ok(())
